@@ -197,7 +197,7 @@ theorem fb_descent_of_qub (tol psix psixhat gTp L pTp hx gamma : α) (hγ : 0 < 
     psixhat + hx ≤ pantr_fbe psix hx pTp gamma gTp - (1 - gamma * L) / (2 * gamma) * pTp
       + (1 + |psix|) * tol := by
   unfold pantr_qubViolated at h
-  simp only [eabs_eq_abs, decide_eq_false_iff_not, not_lt, gt_iff_lt] at h
+  simp only [eabs_eq_abs, Bool.not_eq_false', decide_eq_true_eq] at h
   unfold pantr_fbe
   have hid : pTp / (2 * gamma) - (1 - gamma * L) / (2 * gamma) * pTp = (0.5 : α) * L * pTp := by
     have : gamma ≠ 0 := ne_of_gt hγ
